@@ -33,6 +33,17 @@ class Color(enum.Enum):
     GREEN = "green"
 
 
+class Point(typing.NamedTuple):
+    px: int
+    py: int
+
+
+class Seg(typing.NamedTuple):
+    # string annotations: the forward references are resolved through the NamedTuple's own module
+    a: "Point"
+    b: "Point"
+
+
 class DOmit(Dialect):
     omit_none = True
     omit_default = True
@@ -92,6 +103,17 @@ def family(kind, cfg):
         sys.modules[NTD.__module__].__dict__.setdefault("NTD", NTD)
         return dataclasses.make_dataclass("WithNT", [("nt", NTD), ("x", int, F(default=1)), ("lnt", typing.List[NTD], F(default_factory=list))],
                                           bases=(DataClassDictMixin,), namespace=ns)
+    if kind == "ntfwd":
+        return Seg  # the (de)serializer builder does not resolve such references; the schema generator does
+    if kind == "deser_only":
+        ns2 = dict(ns)
+        cfgd = dict(vars(ns2["Config"])) if "Config" in ns2 else {}
+        cfgd = {k: v for k, v in cfgd.items() if not k.startswith("__")}
+        cfgd["serialization_strategy"] = {datetime.date: {"deserialize": datetime.date.fromisoformat}}
+        ns2["Config"] = type("Config", (BaseConfig,), cfgd)
+        return dataclasses.make_dataclass("DeserOnly", [("d", datetime.date), ("m", typing.Dict[str, datetime.date], F(default_factory=dict)),
+                                                       ("x", int, F(default=1, metadata={"serialization_strategy": {"deserialize": int}}))],
+                                          bases=(DataClassDictMixin,), namespace=ns2)
     if kind == "plain":
         return dataclasses.make_dataclass("Plain", [("a", int, F(default=1)), ("n", typing.Optional[str], F(default=None))],
                                           namespace=ns)
